@@ -17,6 +17,7 @@ PAIR_ATTRS = {"elts": "starred", "args": "starred", "keys": "none-key", "values"
 def check(repo: Repo, rep, tier):
     rep.not_decided = "dirty-equals itself (package absent here; covered symbolically through is_dirty_equal/update_allowed); what a user wrapper's __eq__ does"
     wrap_at_entry(repo, rep)
+    map_total(repo, rep)
     unmanaged_guard(repo, rep)
     star_freeze(repo, rep)
     reeval_refresh(repo, rep)
@@ -425,3 +426,52 @@ def reeval_refresh(repo: Repo, rep):
                 rep.ok("R-REEVAL-REFRESH", f, rz.ast, "UsageError only for managed values")
             else:
                 rep.violation("R-REEVAL-REFRESH", f, rz.ast, "the 'snapshot value should not change' error can be raised for an Unmanaged (Is/dirty-equals) value", construct="raise")
+
+
+def map_total(repo: Repo, rep):
+    rep.rule(
+        "R-MAP-TOTAL",
+        "the wrapped old value is rebuilt from *all* of its parts: neither an adapter's map() nor the arguments() it iterates drops an element by a "
+        "filter that depends on the element's value (is_default, comparison with a default): a dropped Is(...)/dirty-equals argument comes back as a plain "
+        "default value, loses its Unmanaged wrapper and is rewritten by fix",
+    )
+    base = repo.cls("Adapter", "_adapter/adapter.py")
+    n = 0
+    for c in repo.all_classes():
+        if c == base or base not in repo.mro(c):
+            continue
+        for mname in ("map", "arguments"):
+            m = c.methods.get(mname)
+            if m is None:
+                continue
+            n += 1
+            vparam = m.params[1] if len(m.params) > 1 else None
+            bad = None
+
+            def value_dependent(test):
+                for x in ast.walk(test):
+                    if isinstance(x, ast.Attribute) and x.attr == "is_default":
+                        return True
+                    if isinstance(x, ast.Call) and norm(x.func) == "getattr" and x.args and vparam and norm(x.args[0]) == vparam:
+                        return True
+                    if isinstance(x, ast.Compare) and any(isinstance(o, (ast.Eq, ast.NotEq)) for o in x.ops) and vparam and any(isinstance(y, ast.Name) and y.id == vparam for y in ast.walk(x)):
+                        return True
+                return False
+
+            for x in body_nodes(m.node):
+                if isinstance(x, (ast.ListComp, ast.DictComp, ast.SetComp, ast.GeneratorExp)):
+                    for g in x.generators:
+                        for i in g.ifs:
+                            if value_dependent(i):
+                                bad = bad or i
+            if bad is not None:
+                rep.violation(
+                    "R-MAP-TOTAL",
+                    m,
+                    bad,
+                    f"{c.name}.{mname} drops elements by the value-dependent filter `{short(bad, 60)}`: an Is(...) argument whose value equals the default is lost when the old value is wrapped, and fix then overwrites it",
+                    construct=f"{c.name}.{mname}",
+                )
+            else:
+                rep.ok("R-MAP-TOTAL", m, m.node, f"{c.name}.{mname} keeps every element")
+    rep.floor("R-MAP-TOTAL", "map()/arguments() implementations", n, 8)
